@@ -131,6 +131,13 @@ def record(rep: common.Report, t: pydsdl.CompositeType, on: str, what: str, log:
         rep.discharged(log.unsat, key=key, sample=dict(options=on, type=t.full_name, run=what, paths=log.paths, queries_unsat=log.unsat,
                                                       wall_s=round(wall, 2), feature=_CTX["feats"].get(t.short_name, "")))
     for u in log.unknown:
+        if on.startswith("cpp17") and ("unsupported: external" in u or "build failed" in u):
+            # c++17 flavour (std::variant): attempted in the thorough tier only; IR outside the executor's subset, or a header clang 14 rejects,
+            # is reported as not covered (DESIGN.md section 3), never as passed
+            n = f"{t.full_name}: NOT COVERED [{on}]: {u[:160]}"
+            if n not in rep.notes:
+                rep.notes.append(n)
+            continue
         rep.unknown(key, u)
     for c in log.cex:
         c = dict(c)
